@@ -52,8 +52,8 @@ def gen(tier, rng, boost=1):
     pols = [("throw", "throw"), ("skip", "skip"), ("throw", "skip"), ("skip", "throw")]
     for archive in ("mp", "json", "xml", "csv"):
         for _ in range(n):
-            target = rng.choice(TARGETS[archive])
-            docTarget = target if rng.random() < 0.8 else rng.choice(TARGETS[archive])     # sometimes a document of another shape
+            target = rng.choice(LOAD_TARGETS[archive])
+            docTarget = target if rng.random() < 0.8 else rng.choice(LOAD_TARGETS[archive])     # sometimes a document of another shape
             doc = encode(archive, docTarget, value_for(rng, docTarget))
             for _ in range(rng.choice([0, 1, 1, 2, 3])):
                 doc = mutate(rng, doc)
